@@ -1,8 +1,8 @@
 package sim
 
 import (
-	"os"
 	"fmt"
+	"os"
 	"reflect"
 	"sync"
 	"time"
